@@ -1,5 +1,18 @@
 From Coq Require Import List Bool Ascii Arith NArith.
-From TxVerif Require Import Lib.Bytes Lib.Verdict Spec.Ctl Spec.CtlOracle.
+From TxVerif Require Import Lib.Bytes Lib.Verdict Spec.Ctl Spec.CtlOracle Spec.C03Cancel.
 From TxVerif Require Export Check.CtlSpecOnly.
-Definition case := ccase.
-Definition check (k : case) : verdict := check_with j_c03 k.
+Import ListNotations.
+
+Inductive case :=
+| KSess (k : ccase)
+| KCancel (ops : list qop) (obs : list (list qev)).
+
+Definition check (k : case) : verdict :=
+  match k with
+  | KSess c => check_with j_c03 c
+  | KCancel ops obs =>
+      match q_oracle ops obs with
+      | None => VSkip
+      | Some ok => mk_verdict None ok
+      end
+  end.
